@@ -1,37 +1,47 @@
 open Union
+(* Replays union operation sequences through the extracted model (Union2.ustep) and prints the records after each.
+   Volumes are exact dyadic rationals written m:e (m * 2^e). *)
 let rec pos_of_int n = if n <= 1 then XH else if n land 1 = 0 then XO (pos_of_int (n lsr 1)) else XI (pos_of_int (n lsr 1))
 let rec int_of_pos = function XH -> 1 | XO p -> 2 * int_of_pos p | XI p -> 2 * int_of_pos p + 1
 let rec nat_of_int n = if n <= 0 then O else S (nat_of_int (n - 1))
-let z_of_int n = if n = 0 then Z0 else if n > 0 then Zpos (pos_of_int n) else Zneg (pos_of_int (-n))
-let int_of_z = function Z0 -> 0 | Zpos p -> int_of_pos p | Zneg p -> - int_of_pos p
+let rec shift_pos p k = if k <= 0 then p else shift_pos (XO p) (k - 1)
+let q_of_dy s = match String.split_on_char ':' s with
+  | [m; e] -> let m = int_of_string m and e = int_of_string e in
+    if m = 0 then { qnum = Z0; qden = XH }
+    else if e >= 0 then { qnum = Zpos (shift_pos (pos_of_int m) e); qden = XH }
+    else { qnum = Zpos (pos_of_int m); qden = shift_pos XH (-e) }
+  | _ -> failwith "dyadic"
+let rec bits p acc = match p with XH -> "1" ^ acc | XO q -> bits q ("0" ^ acc) | XI q -> bits q ("1" ^ acc)
+let str_q q = (match q.qnum with Z0 -> "0" | Zpos p -> bits p "" | Zneg p -> "-" ^ bits p "") ^ "/" ^ bits q.qden ""
 let words l = List.filter (fun s -> s <> "") (String.split_on_char ' ' l)
 let dump u = Printf.printf "U bs=%s vols=%s blk=%s pbs=%s\n"
   (String.concat "," (List.map (fun b -> string_of_int (int_of_pos b)) u.bs))
-  (String.concat "," (List.map (fun v -> string_of_int (int_of_z v)) u.vols))
+  (String.concat "," (List.map str_q u.vols))
   (String.concat "" (List.map (fun b -> if b then "1" else "0") u.blk))
   (String.concat "|" (List.map (fun l -> String.concat "," (List.map (fun p -> string_of_int (int_of_pos p)) l)) u.pbs))
 let () =
   let ic = open_in Sys.argv.(1) in
   let st = ref None and nmin = ref O and ats = ref [] in
+  let apply op =
+    ats := [];
+    (match !st with
+     | None -> print_endline "DEAD"
+     | Some u -> (match ustep !nmin u op with
+        | Some (u', r) -> st := Some u'; Printf.printf "RET %b " r; dump u'
+        | None -> st := None; print_endline "REJECT")) in
   (try while true do
     match words (input_line ic) with
-    | "INIT" :: nm :: b :: v :: blk :: pts ->
+    | "INIT" :: nm :: b :: v :: pts ->
       nmin := nat_of_int (int_of_string nm);
-      st := Some { bs = [pos_of_int (int_of_string b)]; pbs = [List.map (fun s -> pos_of_int (int_of_string s)) pts];
-                   vols = [z_of_int (int_of_string v)]; blk = [blk = "1"] }; print_endline "INIT"
+      st := Some (uinit !nmin (pos_of_int (int_of_string b)) (List.map (fun s -> pos_of_int (int_of_string s)) pts) (q_of_dy v));
+      (match !st with Some u -> print_string "INIT "; dump u | None -> ())
     | ["AB"; i] -> ats := ABlocked (nat_of_int (int_of_string i)) :: !ats
     | ["AR"; i] -> ats := ARefused (nat_of_int (int_of_string i)) :: !ats
-    | "AS" :: i :: b0 :: b1 :: v0 :: v1 :: [labels] ->
-      ats := ASuccess (nat_of_int (int_of_string i), List.init (String.length labels) (fun k -> labels.[k] = '1'),
-                       pos_of_int (int_of_string b0), pos_of_int (int_of_string b1), z_of_int (int_of_string v0), z_of_int (int_of_string v1)) :: !ats
-    | "AS" :: i :: b0 :: b1 :: v0 :: v1 :: [] -> ats := ASuccess (nat_of_int (int_of_string i), [], pos_of_int (int_of_string b0), pos_of_int (int_of_string b1), z_of_int (int_of_string v0), z_of_int (int_of_string v1)) :: !ats
-    | ["SPLIT"; allow] | ["TRIM"; allow] as w ->
-      let op = if List.hd w = "SPLIT" then Split (allow = "1", List.rev !ats) else Trim (if allow = "-1" then None else Some (nat_of_int (int_of_string allow))) in
-      ats := [];
-      (match !st with
-       | None -> print_endline "DEAD"
-       | Some u -> (match ustep !nmin u op with
-          | Some (u', r) -> st := Some u'; Printf.printf "RET %b " r; dump u'
-          | None -> st := None; print_endline "REJECT"))
+    | "AS" :: i :: b0 :: b1 :: v0 :: v1 :: rest ->
+      let labels = match rest with [l] -> List.init (String.length l) (fun k -> l.[k] = '1') | _ -> [] in
+      ats := ASuccess (nat_of_int (int_of_string i), labels, pos_of_int (int_of_string b0), pos_of_int (int_of_string b1), q_of_dy v0, q_of_dy v1) :: !ats
+    | ["SPLIT"; allow] -> apply (Split (allow = "1", List.rev !ats))
+    | ["TRIM"; d] -> apply (Trim (if d = "-1" then None else Some (nat_of_int (int_of_string d))))
+    | ["SAMPLE"] -> apply Sample
     | _ -> ()
   done with End_of_file -> ())
